@@ -123,6 +123,10 @@ type Sched struct {
 	// default base lies before every file time stamp; a large value makes every file
 	// look old to the code, as after a long pause of the processes involved)
 	ClockAhead time.Duration
+	// FaultTableRemoves: a removal of a table file (*.ref) may take the injected fault
+	// too (other removals never do: a process that cannot unlink a lock or a temporary
+	// file cannot release anything)
+	FaultTableRemoves bool
 	// HookReads: ReadAt on table files is a hooked operation (fault-injection runs)
 	HookReads     bool
 	MaxSteps      int
@@ -302,7 +306,7 @@ func enter(kind, path, dst string, skip int) *Op {
 	p.nops++
 	s.Step++
 	op.Seq = s.Step
-	if p.FaultAt > 0 && p.nops == p.FaultAt && faultable[kind] {
+	if p.FaultAt > 0 && p.nops == p.FaultAt && (faultable[kind] || (s.FaultTableRemoves && kind == "remove" && PathClass(path) == "ref")) {
 		op.Fault = ErrInjected
 		p.FaultFired = op
 	}
